@@ -815,6 +815,8 @@ class CallMixin:
             v = args[0]
             if isinstance(v, (FuncVal, BoundMethod, Builtin, ClassVal)):
                 return True
+            if isinstance(v, Obj) and v.kind in ('arr', 'seq'):
+                return False            # numpy arrays, lists and tuples are not callable
             if isinstance(v, Obj):
                 return z3.Function('is_callable', Ref, z3.BoolSort())(v.ref)
             return False
